@@ -113,3 +113,89 @@ Theorem C09_code_tie_explicit : forall sgn ext li L ws io0 fuel,
     end.
 Proof. exact tie_phrase_decode_explicit_langs. Qed.
 Print Assumptions C09_code_tie_explicit.
+
+(* ---- the tie to the code: src/polyseed.c as TRANSLATED on this run (Gen/CApi.v) ---- *)
+From Coq Require Import String.
+From PS Require Import Base GFDefs PackDefs StoreDefs MiscDefs StrDefs LangDefs ApiDefs GFProofs PackProofs StoreProofs CTieBase CTieLang CTiePhrase CTieSplit CTieApi CTieDecode.
+From PS.Gen Require Import Consts PrivConsts Langs.
+From PS.Gen Require CFuns.
+From PS.Gen Require CApi.
+
+(* str_split as translated (offsets into the buffer, separators overwritten in place): the count returned and the tokens designated are the mirror's, for every NUL-free content *)
+Theorem C09_code_tie_split :
+  forall (fuel : nat) (tail : list Z),
+         tail = [] \/ (exists r : list Z, tail = 0%Z :: r) ->
+         forall (content : bytes) (words0 : list Z),
+         no_nul content ->
+         Datatypes.length words0 = 16%nat ->
+         (Datatypes.length content + 2 <= fuel)%nat ->
+         exists Bf' words' : list Z,
+           CApi.str_split fuel (zs content ++ tail) words0 =
+           Some (Bf', words', Z.of_nat (fst (str_split content))) /\
+           Datatypes.length words' = 16%nat /\ Q Bf' words' (snd (str_split content)).
+Proof. exact @tie_str_split. Qed.
+Print Assumptions C09_code_tie_split.
+
+(* polyseed_decode as translated against the mirror step *)
+Theorem C09_code_tie_api_decode :
+  forall (sgn : bool) (st : state) (fuel : nat) (D : list Z -> list Z * Z) (ext : Z -> list Z -> Z),
+         (forall (li : nat) (L : lang) (w : bytes),
+          nth_error langs li = Some L -> ext (Z.of_nat li) (zs w) = enc (lang_search sgn L w)) ->
+         (18 <= fuel)%nat ->
+         forall (str : bytes) (coin : N) (ok : bool) (lo lo0 gb gf : Z) (gs : list Z) (gc so0 : Z),
+         no_nul str ->
+         coin < 2048 ->
+         (Datatypes.length str + 2 <= fuel)%nat ->
+         D (zs str) = (zs (fst (dp_nfkd (st_deps st) str)), Z.of_N (snd (dp_nfkd (st_deps st) str))) ->
+         no_nul (fst (dp_nfkd (st_deps st) str)) ->
+         (Datatypes.length (fst (dp_nfkd (st_deps st) str)) + 2 <= fuel)%nat ->
+         let
+         '(st', out0, evs) := step sgn langs st (OpDecode str coin ok) in
+          exists (cevs : list CApi.cev) (lo' b f : Z) (s : list Z) (c so status : Z),
+            CApi.polyseed_decode fuel sgn D ext (alloc_ptr st ok) CFuns.polyseed_mul2_table
+              (Z.of_N (st_reserved st)) (zs str) (Z.of_N coin) lo lo0 gb gf gs gc so0 =
+            Some (cevs, lo', b, f, s, c, so, status) /\
+            evs_of (st_deps st) cevs = no_idx evs /\
+            (exists li : nat,
+               out0 =
+               OutStatus (Z.to_N status) (if (status =? 0)%Z then Some (st_next st) else None)
+                 (if (status =? 0)%Z then Some li else None) /\
+               (status = 0%Z -> (lo <> 0%Z -> lo' = Z.of_nat li) /\ (lo = 0%Z -> lo' = lo0))) /\
+            (if (status =? 0)%Z
+             then
+              so = ptr (st_next st) /\
+              (exists d : data, st_heap st' = (st_next st, d) :: st_heap st /\ (b, f, s, c) = zd d)
+             else so = so0 /\ st_heap st' = st_heap st).
+Proof. exact @tie_decode. Qed.
+Print Assumptions C09_code_tie_api_decode.
+
+(* polyseed_decode_explicit as translated against the mirror step *)
+Theorem C09_code_tie_api_decode_explicit :
+  forall (sgn : bool) (st : state) (fuel : nat) (D : list Z -> list Z * Z) (ext : Z -> list Z -> Z),
+         (forall (li : nat) (L : lang) (w : bytes),
+          nth_error langs li = Some L -> ext (Z.of_nat li) (zs w) = enc (lang_search sgn L w)) ->
+         (18 <= fuel)%nat ->
+         forall (str : bytes) (coin : N) (li : nat) (L : lang) (ok : bool) (gb gf : Z) 
+           (gs : list Z) (gc so0 : Z),
+         nth_error langs li = Some L ->
+         no_nul str ->
+         coin < 2048 ->
+         (Datatypes.length str + 2 <= fuel)%nat ->
+         D (zs str) = (zs (fst (dp_nfkd (st_deps st) str)), Z.of_N (snd (dp_nfkd (st_deps st) str))) ->
+         no_nul (fst (dp_nfkd (st_deps st) str)) ->
+         (Datatypes.length (fst (dp_nfkd (st_deps st) str)) + 2 <= fuel)%nat ->
+         let
+         '(st', out0, evs) := step sgn langs st (OpDecodeExplicit str coin li ok) in
+          exists (cevs : list CApi.cev) (b f : Z) (s : list Z) (c so status : Z),
+            CApi.polyseed_decode_explicit fuel sgn D ext (alloc_ptr st ok) CFuns.polyseed_mul2_table
+              (Z.of_N (st_reserved st)) (zs str) (Z.of_N coin) (Z.of_nat li) gb gf gs gc so0 =
+            Some (cevs, b, f, s, c, so, status) /\
+            evs_of (st_deps st) cevs = evs /\
+            out0 = OutStatus (Z.to_N status) (if (status =? 0)%Z then Some (st_next st) else None) None /\
+            (if (status =? 0)%Z
+             then
+              so = ptr (st_next st) /\
+              (exists d : data, st_heap st' = (st_next st, d) :: st_heap st /\ (b, f, s, c) = zd d)
+             else so = so0 /\ st_heap st' = st_heap st).
+Proof. exact @tie_decode_explicit. Qed.
+Print Assumptions C09_code_tie_api_decode_explicit.
